@@ -171,6 +171,9 @@ def run(tier, seed, build=True):
         jobs.append(("pair-reject", ("@+1d", "20200101T000000"), 0, None, None))
         jobs.append(("pair-reject", ("20200101T000000", "@-1d"), 0, None, None))
         jobs.append(("pair-ok", ("20200101T000000", "20200101T000000"), 0, None, None))
+        # '@' relative to a bound that is itself relative to program start (documented: the '@' bound is evaluated second)
+        for a_, b_, da, db in (("@-1h", "-1d", -3600, -86400), ("@-2d3h", "+0s", -(2 * 86400 + 3 * 3600), 0), ("-1w", "@+1d", -604800, 86400)):
+            jobs.append(("at-now", (a_, b_), 0, (da, db), None))
         # the help text's own example with two signed groups: if it is accepted it must mean 1 day + 11 hours
         jobs.append(("at-b", "+1d+11h", 0, 86400 + 11 * 3600, False))
         common.log("[C14] %d argument cases" % len(jobs))
@@ -215,6 +218,18 @@ def run(tier, seed, build=True):
                         shape = "relative-offset-with-garbage"
                     res.violation({"kind": kind, "symptom": "accepted", "shape": shape},
                                   "value %r should be rejected (non-zero exit, nothing printed) but the run was accepted: rc=%s, resolved -a=%s -b=%s" % (st, r.rc, sm["a"], sm["b"]), replay)
+                continue
+            if kind == "at-now":
+                da, db = exp
+                if not accepted or sm["a"] is None or sm["b"] is None or sm["now"] is None:
+                    res.violation({"kind": kind, "symptom": "rejected"}, "-a %s -b %s (one bound relative to the other, the other relative to program start) was rejected: %r" % (st[0], st[1], r.err[-160:]), replay)
+                else:
+                    if st[0].startswith("@"):
+                        ok = sm["b"] - sm["now"] == db and sm["a"] - sm["b"] == da
+                    else:
+                        ok = sm["a"] - sm["now"] == da and sm["b"] - sm["a"] == db
+                    if not ok:
+                        res.violation({"kind": kind, "symptom": "wrong-instant"}, "-a %s -b %s resolved to a=%s b=%s (program start %s)" % (st[0], st[1], sm["a"], sm["b"], sm["now"]), replay)
                 continue
             if kind == "pair-ok":
                 if not accepted:
